@@ -90,6 +90,13 @@ DefaultLayout == [cont |-> "pfa", leniv |-> 4, names |-> "RD", longnum |-> FALSE
 BaseA == <<N(30), N(500), C("hsbw"), N(20), N(0), C("rmoveto"), N(100), C("hlineto"), N(200), C("vlineto"), C("closepath"), C("endchar")>>
 Accent(sb) == <<N(sb), N(300), C("hsbw"), N(10), N(400), C("rmoveto"), N(40), N(60), C("rlineto"), N(-80), C("hlineto"), C("closepath"), C("endchar")>>
 Composite(sb, adx, ady) == <<N(sb), N(500), C("hsbw"), N(sb), N(adx), N(ady), N(97), N(193), C("seac")>>
+\* the seac family: a base of ten path commands (not a power of two: readers that grow
+\* buffers by doubling have spare room behind it), two accents, two composites on the same base
+SeacBase == <<N(30), N(500), C("hsbw"), N(20), N(0), C("rmoveto"), N(100), C("hlineto"), N(200), C("vlineto"),
+              N(-30), C("hlineto"), N(-40), C("vlineto"), N(-30), C("hlineto"), N(-50), C("vlineto"),
+              N(-20), N(-20), C("rlineto"), N(-20), C("hlineto"), C("closepath"), C("endchar")>>
+Accent2(sb) == <<N(sb), N(300), C("hsbw"), N(15), N(410), C("rmoveto"), N(-40), N(55), C("rlineto"), N(70), C("hlineto"), C("closepath"), C("endchar")>>
+Composite2(sb, adx, ady) == <<N(sb), N(500), C("hsbw"), N(sb), N(adx + 15), N(ady - 20), N(97), N(194), C("seac")>>
 
 \* ---- hostile charstrings (C01c)
 HostileAlpha == << N(0), N(-1), N(3), N(25), N(2147483647), N(-2147483647 - 1), C("callothersubr"), C("callsubr"), C("pop"),
@@ -186,8 +193,11 @@ Shift(cmds, dx, dy) ==
          a |-> [i \in 1..Len(cmds[j].a) |-> IF i % 2 = 1 THEN QAdd(cmds[j].a[i], QI(dx)) ELSE QAdd(cmds[j].a[i], QI(dy))]]]
 \* composite: base outline, then the accent's outline moved by (adx, ady); the base's advance
 SeacRes(sb, adx, ady) ==
-    LET b == Dec(BaseA)  a == Dec(Accent(sb))
+    LET b == Dec(SeacBase)  a == Dec(Accent(sb))
     IN [cmds |-> b.cmds \o Shift(a.cmds, adx, ady), wx |-> b.wx, wy |-> b.wy, st |-> "done"]
+SeacRes2(sb, adx, ady) ==
+    LET b == Dec(SeacBase)  a == Dec(Accent2(sb))
+    IN [cmds |-> b.cmds \o Shift(a.cmds, adx + 15, ady - 20), wx |-> b.wx, wy |-> b.wy, st |-> "done"]
 
 IsGlyphFam == Family \in {"glyph", "layout"}
 Ready == (IsGlyphFam /\ ((Family = "glyph" /\ phase = "items" /\ Len(stim.g.items) >= 1) \/ phase = "laid"))
@@ -207,10 +217,12 @@ Vector ==
          variant |-> stim.fl, spelling |-> StrTable[stim.fl.str].sp, fontlevel |-> Expected(stim.fl)]
     ELSE IF Family = "seac" THEN
         [fam |-> Family, lay |-> stim.lay, subrs |-> Subrs,
-         glyphs |-> [name |-> <<".notdef", "a", "grave", "agrave">>,
-                     toks |-> <<Notdef, BaseA, Accent(stim.seac[1]), Composite(stim.seac[1], stim.seac[2], stim.seac[3])>>],
-         expect |-> <<GlyphRes(Dec(Notdef)), GlyphRes(Dec(BaseA)), GlyphRes(Dec(Accent(stim.seac[1]))),
-                      SeacRes(stim.seac[1], stim.seac[2], stim.seac[3])>>]
+         glyphs |-> [name |-> <<".notdef", "a", "grave", "acute", "agrave", "aacute">>,
+                     toks |-> <<Notdef, SeacBase, Accent(stim.seac[1]), Accent2(stim.seac[1]),
+                                Composite(stim.seac[1], stim.seac[2], stim.seac[3]), Composite2(stim.seac[1], stim.seac[2], stim.seac[3])>>],
+         expect |-> <<GlyphRes(Dec(Notdef)), GlyphRes(Dec(SeacBase)), GlyphRes(Dec(Accent(stim.seac[1]))),
+                      GlyphRes(Dec(Accent2(stim.seac[1]))),
+                      SeacRes(stim.seac[1], stim.seac[2], stim.seac[3]), SeacRes2(stim.seac[1], stim.seac[2], stim.seac[3])>>]
     ELSE
         [fam |-> Family, lay |-> stim.lay, subrs |-> Subrs,
          glyphs |-> [name |-> <<".notdef", "A">>, toks |-> <<Notdef, GlyphToks(stim.g)>>],
